@@ -46,7 +46,7 @@ func RunRoutingConcurrent(c *sim.Ctx) {
 	nTasks := knob("tasks", 2, 4)
 	seed := uint64(c.Knob("schedule_seed", func() int64 { return int64(c.Uint64("schedule_seed") >> 1) }))
 	switchPm := []int{200, 500, 900}[knob("switch_permille", 0, 2)]
-	c.ProbeDecl("race_report", "pattern_route_used_by_two_tasks")
+	c.ProbeDecl("pattern_route_used_by_two_tasks")
 	producers := map[multidb.TypeName]kvdb.FullDBProducer{"A": nil}
 	mk := func() *multidb.Producer {
 		p, err := multidb.NewProducer(producers, rt, []byte{0xfd, 'r'})
@@ -136,7 +136,7 @@ func RunRoutingConcurrent(c *sim.Ctx) {
 		}
 	}
 	if rep := newRaceReports(); strings.Contains(rep, "DATA RACE") {
-		c.Probe("race_report")
+		c.Count("race_reports", 1)
 		first := rep
 		if i := strings.Index(rep[10:], "=================="); i > 0 {
 			first = rep[:i+10]
